@@ -128,6 +128,11 @@ func c03Run(p c03Params) func() {
 		}
 		cfg := TCfg(p.R, p.T, 100000000)
 		cfg.UseTCP = p.tcp
+		if p.tcp {
+			// an option that has nothing to do with the exchange: whether the connect request
+			// advertises the local address
+			cfg.SendLocalAddress = mc.Choose(2, mc.Free) == 1
+		}
 		gt, err := knx.NewGroupTunnelOnSocket(sock, cfg)
 		if err != nil {
 			mc.Log(Note("connect failed: " + err.Error()))
